@@ -140,6 +140,7 @@ def fresh_load(data, loader, caching):
 
 class RoundTrip(Leg):
     name = "roundtrip"
+    time_limit = 600           # up to four fresh interpreters per case (each limited to 120 s) and 30 s for the dump itself
     imports = "From EG Require Import Base."
     checkfn = "(fun b : bool => b)"
     case_type = "bool"
@@ -334,6 +335,8 @@ class StreamEquality(Leg):
 
 class Depth(Leg):
     name = "depth"
+    time_limit = 1500          # chains of up to 20000 vertices pickled under sys.setprofile: minutes on a loaded machine (the
+                               # subprocess has its own limit of 600 s, reported as an error of the case)
     imports = "From EG Require Import Base."
     checkfn = "(fun b : bool => b)"
     case_type = "bool"
